@@ -149,6 +149,9 @@ func (b *prefixBatch) Put(key, value []byte) error {
 
 func (b *prefixBatch) Write() error {
 	verifC05Write(b.db, "batch", nil, b.b.Len())
+	if err := verifC05Fault(b.db, "batch", nil, b.b.Len()); err != nil {
+		return err
+	}
 	return b.db.Write(b.b, nil)
 }
 
